@@ -28,7 +28,8 @@ EXPLANATION = (
     " ROUNDS 5-6: R6 has no exception for Pointer/View any more (named lengths behind them are ordering dependencies: found_named_lengths, T2) and requires the constant named by E416 to be part of the cycle."
     " ROUND 7: C10.R2-MEMBER-PADDING is shared (E380 is decided from that size model)."
     " ROUND 8: R7-WELLFORMED-EVERYWHERE: parse_inner_type is called only by itself and by parse_wellformed_type (7 callers counted): no type position of the parser skips the well-formedness check."
-    " ROUND 9: C10.R1-SIZE-AGREEMENT is shared: the member sizes E380 adds up are the sizes of the LLVM types.")
+    " ROUND 9: C10.R1-SIZE-AGREEMENT is shared: the member sizes E380 adds up are the sizes of the LLVM types."
+    " ROUND 10: R8-VERDICT-ON-STORED-TYPE: the receiver of every can_be_* predicate asked in a function that also lowers the type (fix_type_for_flags; 5 sites) derives from the result of the lowering.")
 
 VR = "alpha::scoper::variable_references::"
 
